@@ -117,9 +117,15 @@ class Rec:
                 if c in json.load(fh):
                     raise ValueError('boom')
         out = render(self.spec['kind'], c + self.spec.get('offset', 0))     # offset: a *different* function on the same arguments
-        if self.spec.get('as_xr'):
+        ax = self.spec.get('as_xr')
+        if ax:
             import xarray as xr, numpy as np
             dims = self.spec['dims']
+            if ax == 'dict':            # a plain dict of (dims, data) pairs: the library turns it into a Dataset
+                return {name: (tuple(dims[name]), np.asarray(val)) for name, val in out.items()}
+            if ax == 'dataarray':       # one named DataArray
+                name, val = next(iter(out.items()))
+                return xr.DataArray(np.asarray(val), dims=tuple(dims[name]), name=name)
             return xr.Dataset({name: (tuple(dims[name]), np.asarray(val)) for name, val in out.items()})
         return out
 
